@@ -298,6 +298,7 @@ let undefined_field_call (p : parsed) (observed : S.t) : bool =
         List.exists (function
             | S.L [S.A "c"; n; fn; _] ->
               (match List.assoc_opt (S.int n) (List.map (fun (k, nd) -> (int_of_nat k, nd)) p.graph) with
+               | Some nd when int_of_nat nd.n_gotype = 900 -> false     (* bound to no object type: its container is an interface *)
                | Some nd ->
                  (match Model.get_field_def p.schema nd.n_gotype (nat_of_int (S.int fn)) with
                   | None -> true
@@ -315,7 +316,9 @@ let bad_argument_call (p : parsed) (observed : S.t) : string option =
     | S.L [S.A "c"; n; fn; S.L args] ->
       (match List.assoc_opt (S.int n) graph with
        | Some nd ->
-         (match Model.get_field_def p.schema nd.n_gotype (nat_of_int (S.int fn)) with
+         (* a value bound to no object type (900) answers for the interface (28) it stands under *)
+         let ct = if int_of_nat nd.n_gotype = 900 then nat_of_int 28 else nd.n_gotype in
+         (match Model.get_field_def p.schema ct (nat_of_int (S.int fn)) with
           | Some fd ->
             let declared = List.map (fun d -> int_of_nat d.a_name) fd.f_args in
             let given = List.filter_map (function S.L [an; v] -> Some (S.int an, v) | _ -> None) args in
